@@ -432,6 +432,141 @@ def flows_only_into(f, ev, callee, how=('arg',)):
     return False
 
 
+
+def deep_resolve_select(p, before):
+    """resolve every conditional sub-expression of p whose condition was branched on before (outermost first)"""
+    for _ in range(8):
+        found = False
+        i = 0
+        while i < len(p or ''):
+            if p[i] == '(':
+                d = 0; j = i
+                while j < len(p):
+                    if p[j] == '(':
+                        d += 1
+                    elif p[j] == ')':
+                        d -= 1
+                        if d == 0:
+                            break
+                    j += 1
+                sub = p[i:j + 1]
+                if split_select(sub):
+                    r = resolve_select(sub, before)
+                    if r != sub:
+                        p = p[:i] + ('(%s)' % r if ' ' in r and not r.startswith('(') else r) + p[j + 1:]; found = True
+                        break
+            i += 1
+        if not found:
+            break
+    return p
+
+
+def split_cmp(p):
+    """'(A op B)' -> (A, op, B) for a relational operator at depth 0, else None"""
+    if not (p.startswith('(') and p.endswith(')')):
+        return None
+    body = p[1:-1]; d = 0
+    for i, ch in enumerate(body):
+        if ch == '(':
+            d += 1
+        elif ch == ')':
+            d -= 1
+            if d < 0:
+                return None
+        elif ch == ' ' and d == 0:
+            m = re.match(r' (<=|>=|==|!=|<|>) ', body[i:])
+            if m:
+                return body[:i], m.group(1), body[i + len(m.group(0)):]
+    return None
+
+
+def counter_step(tr, path, N=24):
+    """one live trace read as a transformer of the unsigned counter at `path`: returns {v: new value} for every start value v in 0..N-1 that
+    satisfies the branch conditions of the trace, or None when a condition or the stored expression is not interpretable (linear in the
+    counter, integer literals and constant locals)"""
+    consts = {it.get('var'): it.get('const') for it in tr if it.k == 'decl' and isinstance(it.get('const'), int) and not isinstance(it.get('const'), bool)}
+
+    def ev_(expr, v):
+        try:
+            lf = linform(expr)
+        except Exception:
+            return None
+        if lf is None:
+            return None
+        t = 0
+        for a, c in lf.items():
+            if a == '':
+                t += c
+            elif a == path:
+                t += c * v
+            elif a in consts:
+                t += c * consts[a]
+            else:
+                return None
+        return t
+    out = {}
+    for v0 in range(N):
+        v = v0; ok = True
+        for i, it in enumerate(tr):
+            if it.k == 'branch':
+                ps = [pp for pp in list((it.get('forms') or {}).items()) + [(it.get('path'), it.val)] if pp[0] and path in pp[0]]
+                if not ps:
+                    continue
+                p_, val = ps[-1]
+                while p_.startswith('!(') and p_.endswith(')'):
+                    p_ = p_[2:-1]; val = not val
+                if p_ == path:
+                    holds = (v != 0)
+                else:
+                    sc = split_cmp(p_ if p_.startswith('(') else '(%s)' % p_)
+                    if not sc:
+                        return None
+                    a, b = ev_(sc[0], v), ev_(sc[2], v)
+                    if a is None or b is None:
+                        return None
+                    holds = {'<': a < b, '<=': a <= b, '>': a > b, '>=': a >= b, '==': a == b, '!=': a != b}[sc[1]]
+                if holds != bool(val):
+                    ok = False; break
+            elif it.k == 'write' and it.get('path') == path:
+                d = delta_of_write(it)
+                if d is not None:
+                    v = v + d
+                else:
+                    if (it.get('op') or '=') != '=':
+                        return None
+                    rhs = origin_in_trace(tr, i, it.get('rhs'))[0] or it.get('rhs') or ''
+                    rhs = deep_resolve_select(rhs, tr[:i])
+                    nv = ev_(rhs, v) if rhs else (it.get('const') if isinstance(it.get('const'), int) else None)
+                    if nv is None:
+                        return None
+                    v = nv
+        if ok:
+            out[v0] = v
+    return out
+
+
+
+def says_nonnull(expr, path):
+    """is the boolean expression `expr` exactly "path is not null", in any spelling: p != nullptr, !(p == nullptr), nullptr != p, p, !!p"""
+    e = expr or ''; neg = False
+    for _ in range(6):
+        if e.startswith('!(') and e.endswith(')'):
+            e = e[2:-1]; neg = not neg
+        elif e.startswith('((') and e.endswith('))'):
+            e = e[1:-1]
+        else:
+            break
+    if e == path:
+        return not neg
+    sc = split_cmp(e if e.startswith('(') else '(%s)' % e)
+    if not sc or sc[1] not in ('==', '!='):
+        return False
+    a, b = sc[0], sc[2]
+    if b in NULLS and a == path or a in NULLS and b == path:
+        return (sc[1] == '!=') != neg
+    return False
+
+
 def delta_of_write(ev):
     """numeric change a write applies to its target: += c, -= c, ++, --, x = x + c, x = x - c ; None when not of that shape"""
     op = ev.get('op') or '='
@@ -622,10 +757,21 @@ def origin_in_trace(tr, idx, path, maxsteps=8):
         if m:
             path = m.group(1); continue
         if re.fullmatch(r'local:\w+(#\d+)?', path):
-            j = next((j for j in range(idx - 1, -1, -1) if tr[j].k == 'decl' and tr[j].get('var') == path), None)
-            if j is None or tr[j].get('init') is None:
+            def sets(it_):
+                if it_.k == 'decl' and it_.get('var') == path:
+                    return True
+                if it_.k == 'write' and it_.get('path') == path and it_.get('op', '=') == '=':
+                    return True
+                return it_.k == 'call' and it_.get('recv') == path and norm(it_.get('callee') or '').endswith('::operator=') and len(it_.get('args') or []) == 1
+            j = next((j for j in range(idx - 1, -1, -1) if sets(tr[j])), None)
+            if j is None:
                 return path, idx
-            path, idx = tr[j].get('init'), j
+            v_ = tr[j].get('init') if tr[j].k == 'decl' else (tr[j].get('rhs') or ('0' if tr[j].get('const') == 0 else None)) if tr[j].k == 'write' else tr[j]['args'][0].get('path')
+            if v_ is None and tr[j].k == 'decl' and tr[j].get('const') == 0:
+                v_ = 'nullptr'
+            if v_ is None:
+                return path, idx
+            path, idx = v_, j
             continue
         m = re.fullmatch(r'call\(([^()]*)\)', path)
         if m:
@@ -707,6 +853,11 @@ def null_test(tr, i):
             m_ = re.fullmatch(r'(?:ctor|move)\((.+)\)', obj)
             if m_ and m_.group(1) not in NULLS:
                 obj = m_.group(1)          # a copy of the handle compared: the test is about the handle
+            if re.fullmatch(r'call\((std::coroutine_handle(<[^()]*>)?::address|std::(unique|shared)_ptr(<[^()]*>)?::get)\)', obj):
+                # h.address() != nullptr / p.get() != nullptr: the raw pointer of the object is the object's nullness
+                oe = next((x for x in reversed(tr[:i]) if x.k == 'call' and x.get('recv') and re.search(r'::(address|get)$', norm(x.get('callee') or '')) and x.get('depth', 0) == br.get('rcond_depth', br.get('depth', 0))), None)
+                if oe is not None:
+                    obj = oe['recv']
             return (obj, bool(br.val) if ce['op'] == '!=' else (not br.val))
     return nullness(br)
 
@@ -739,10 +890,10 @@ def resolve_select(p, before):
         sp = split_select(p or '')
         if not sp:
             return p
-        br = next((it for it in reversed(before) if it.k == 'branch' and (it.get('opath') == sp[0] or it.get('path') == sp[0])), None)
+        br = next((it for it in reversed(before) if it.k == 'branch' and (it.get('opath') == sp[0] or it.get('path') == sp[0] or sp[0] in (it.get('forms') or {}))), None)
         if br is None:
             return p
-        p = sp[1] if (br.val if br.get('path') == sp[0] else br.get('oval', br.val)) else sp[2]
+        p = sp[1] if (br.val if br.get('path') == sp[0] else br.get('oval', br.val) if br.get('opath') == sp[0] else br['forms'][sp[0]]) else sp[2]
     return p
 
 
